@@ -47,3 +47,23 @@ Fixpoint adelete {V} (k : N) (m : list (N * V)) : list (N * V) :=
   | (k', v) :: r => if N.eqb k k' then adelete k r else (k', v) :: adelete k r
   end.
 Definition nmem (k : N) (l : list N) : bool := existsb (N.eqb k) l.
+
+(* list facts missing from the 8.16 standard library *)
+Lemma filter_length_le {A} (f : A -> bool) l : length (filter f l) <= length l.
+Proof. induction l as [|a l IH]; cbn [filter length]; [apply le_n|]. destruct (f a); cbn [length]; [apply le_n_S, IH | apply le_S, IH]. Qed.
+Lemma filter_all {A} (f : A -> bool) l : forallb f l = true -> filter f l = l.
+Proof.
+  induction l as [|a l IH]; cbn [forallb filter]; [reflexivity|]. intros H. apply andb_true_iff in H. destruct H as [Ha Hl].
+  rewrite Ha, (IH Hl). reflexivity.
+Qed.
+Lemma filter_idem {A} (f : A -> bool) l : filter f (filter f l) = filter f l.
+Proof.
+  apply filter_all. apply forallb_forall. intros x Hx. apply filter_In in Hx. tauto.
+Qed.
+Lemma NoDup_map_filter {A B} (g : A -> B) (f : A -> bool) l : NoDup (map g l) -> NoDup (map g (filter f l)).
+Proof.
+  induction l as [|a r IH]; intros H; [constructor|]. cbn [map] in H. inversion H as [|? ? Hna Hr]; subst.
+  cbn [filter]. destruct (f a); [|apply IH; exact Hr]. cbn [map]. constructor; [|apply IH; exact Hr].
+  intros Hin. apply Hna. apply in_map_iff in Hin. destruct Hin as (x & Hx & Hin). apply filter_In in Hin.
+  rewrite <- Hx. apply in_map. tauto.
+Qed.
